@@ -261,7 +261,9 @@ def short(x):
 
 
 def shape(node):
-    return (type(node).__name__, node.name, [shape(c) for c in list(node)])
+    # "equal-shaped": same classes and child structure; names are compared below the copied root only where armi keeps them
+    # (Core.__deepcopy__ renames the copy "<name>-copy" by design, assemblies are renamed by makeUnique)
+    return (type(node).__name__, [shape(c) for c in list(node)])
 
 
 def shape_sig(node):
@@ -453,6 +455,15 @@ def one_history(rec, rng, fam, nops, case):
                 model = generic_op(rec, rng, target, op, hist, detached, roots, w, tree)
         except SkipOp:
             continue
+        except ValueError as e:
+            if "no valid pitch defining component" in str(e):
+                # an earlier edit removed the component that defines the block pitch; armi refuses geometry-dependent
+                # operations (sorting by size, symmetry factors on Core.add) on such a block. The call may have mutated
+                # before refusing (documented gotcha), so this history ends here.
+                rec.reject("operation refused on a block without pitch-defining component")
+                return
+            rec.crash("op/%s/%s" % (fam, op), e, dict(w, target=repr(target)))
+            return
         except Exception as e:
             rec.crash("op/%s/%s" % (fam, op), e, dict(w, target=repr(target)))
             return
